@@ -45,7 +45,26 @@ func runSysFault(x *X) {
 	// small timeouts so that boundaries are reached quickly
 	to := config.TimeoutConfig{Read: 2 + c.Intn(6, "t-read"), Write: 3 + c.Intn(8, "t-write"), Idle: 5 + c.Intn(20, "t-idle"), Handler: 2 + c.Intn(9, "t-handler"),
 		BackendDial: 1 + c.Intn(4, "t-dial"), BackendRead: 1 + c.Intn(5, "t-bread"), BackendIdle: 5 + c.Intn(30, "t-bidle")}
+	// now and then a timeout is left out of the configuration: the documented default applies
+	// (README "Timeout Configuration": read 15, write 15, handler 30, backend_dial 10, backend_read 30)
+	eff := to
+	if c.Intn(4, "unset-timeout") == 0 {
+		switch c.Intn(5, "which-unset") {
+		case 0:
+			to.Handler, eff.Handler = 0, 30
+		case 1:
+			to.BackendRead, eff.BackendRead = 0, 30
+		case 2:
+			to.BackendDial, eff.BackendDial = 0, 10
+		case 3:
+			to.Read, eff.Read = 0, 15
+		case 4:
+			to.Write, eff.Write = 0, 15
+		}
+		x.Probe("timeout-left-unset")
+	}
 	o.timeouts = to
+	to = eff // the oracles below use the effective values
 	if c.Intn(2, "passive") == 1 {
 		o.passive, o.threshold, o.window = true, 1+c.Intn(3, "threshold"), 1+c.Intn(8, "window")
 	}
